@@ -12,6 +12,8 @@
 //! Outcome:
 //!   {"k":"ok","v":V} | {"k":"err","e":"LessViolated"} | {"k":"panic","m":".."} | ...
 
+pub mod probe;
+pub use serde;
 pub use serde_json;
 use serde_json::{json, Value};
 use std::io::{BufRead, BufWriter, Write};
